@@ -13,6 +13,7 @@
 #include <nitro/options/exception.hpp>
 
 #include <iomanip>
+#include <limits>
 #include <sstream>
 
 static const std::vector<std::string>& arg_alphabet()
@@ -222,6 +223,9 @@ static const std::vector<Typed>& typed_values()
         TYPED(sv),          TYPED(255u),        TYPED(1.0 / 3),  TYPED(std::hex),    TYPED(std::boolalpha), TYPED(std::setw(6)),
         TYPED(std::setprecision(2)), TYPED(std::showpos), TYPED(std::uppercase),
         TYPED(Dual()),      TYPED(Sticky{ 255 }), TYPED((Point{ 1, 2 })),
+        // numeric extremes (full digit count with and without a sign)
+        TYPED(std::numeric_limits<int>::min()), TYPED(std::numeric_limits<long long>::min()), TYPED(std::numeric_limits<unsigned long long>::max()),
+        TYPED(static_cast<short>(-32768)), TYPED(std::numeric_limits<long long>::max()), TYPED(-1000000000),
     };
     return v;
 }
@@ -665,7 +669,7 @@ int main(int argc, char** argv)
     rep.counters["bound_format_len"] = L;
     rep.counters["formats"] = formats.size();
     rep.notes["rule"] = "every format over {'{','}','a'} of length <= bound x argument count 0..k+1 x tuples over 8 argument texts x 2 ways of "
-                        "supplying x 3 ways of reading; typed values and manipulators (tuples of <= 3 over 18, incl. a type that is also convertible to std::string, one with sticky flags, one that formats with nitro::format itself) on 14 formats; exception "
+                        "supplying x 3 ways of reading; typed values and manipulators (tuples of <= 3 over 24, incl. a type that is also convertible to std::string, one with sticky flags, one that formats with nitro::format itself) on 14 formats; exception "
                         "messages alone and after every ordered pair of earlier exceptions; every history of bound_history_len events "
                         "(supply by % / args(1) / args(2) / args(), read in 3 ways, copy, move) on one formatter for 6 formats, judged at every read; non-trivial = exact-arity tuples for formats with "
                         "placeholders, and exception sequences";
